@@ -231,6 +231,10 @@ class BayesianOptimizationAlgorithm(NextCandidatesAlgorithm):
                     num_initial_candidates, exclusion_list=self.exclusion_candidates
                 )
             )
+        if len(initial_candidates) == 0:
+            # No candidate outside of ``exclusion_candidates`` could be found
+            # (e.g., all of ``restrict_configurations`` have been suggested)
+            return []
         logger.info("BayesOpt Algorithm: Scoring (and reordering) candidates.")
         if self.debug_log is not None:
             candidates_and_scores = _order_candidates(
